@@ -194,7 +194,8 @@ func jStream(data []byte, mode string, failAt int) {
 		}
 		return strings.Join(s, " ")
 	})
-	if failAt >= 0 && impl != orc && !strings.Contains(impl, "-") {
+	inlineFailure := strings.Contains(impl, "OFFSET-") || strings.Contains(impl, "BUFFERED-CONTRACT") || strings.Contains(impl, "DECODE-AFTER-ERROR") || strings.HasPrefix(impl, "PANIC")
+	if failAt >= 0 && impl != orc && !inlineFailure {
 		// a failing reader: the values must be a prefix of the values of the WHOLE stream, followed by the reader's error
 		full := fullStreamValues(data)
 		iv := strings.Split(impl, " ")
